@@ -1,4 +1,5 @@
 import AC.Props.C15
+import AC.SearchCompose
 open AC.Props.C15
 #print axioms C15_decompose_nonempty
 #print axioms C15_delta_positive
@@ -9,3 +10,6 @@ open AC.Props.C15
 #print axioms C15_exec_progress
 #print axioms C15_sliding_nonempty
 #print axioms C15_calc_clause
+#print axioms AC.Props.C14.C14_search_ensemble_total
+#print axioms P.SearchCompose.search_total
+#print axioms P.SearchCompose.emit_total
